@@ -7,7 +7,7 @@ import time
 
 VERIF = os.path.dirname(os.path.dirname(os.path.abspath(__file__)))
 REPO = os.environ.get("VERIF_REPO", "/repo")
-EVID = os.path.join(VERIF, "evidence")
+EVID = os.environ.get("VERIF_EVIDENCE_DIR") or ("/var/tmp/verif-scratch-evidence" if os.environ.get("VERIF_REPO") else os.path.join(VERIF, "evidence"))   # (tools/run_seeded.py redirects it: evidence is for the unchanged tree only)
 REPLAY = os.path.join(VERIF, "replay")
 FINDINGS = os.path.join(VERIF, "known_findings.json")
 
